@@ -15,7 +15,7 @@ package simrt
 import "runtime"
 
 const (
-	MaxTasks    = 64
+	MaxTasks    = 256
 	TapeCap     = 1 << 20
 	MaxSites    = 1 << 14
 	MaxCounters = 256
@@ -904,7 +904,9 @@ var (
 //go:norace
 func OpTimeDraw() int64 {
 	opCount++
-	if !active || timeMode == 0 {
+	if !active || timeMode == 0 || now > 3e17 {
+		// (no time passes in one run out of four; and never more than about
+		// ten years in all: the clock is an int64 of nanoseconds)
 		return 0
 	}
 	v := mix(seedVal ^ uint64(opCount)*0x9e3779b97f4a7c15 ^ 0x6f70)
